@@ -15,7 +15,7 @@ MC = {"quick": [("MC_C10", "MC_C10.cfg", 8)], "thorough": [("MC_C10", "MC_C10_th
 TRACE = ("Trace_C10", "Trace_C10.cfg")
 REQUIRED = ["base-0", "base-1", "fill-intfill", "fill-nan", "fill-none", "transposed", "normal", "edge-declared", "edge-implied",
             "coords-plain", "coords-coords", "supplied-en", "supplied-fe", "supplied-ef", "supplied-ff", "supplied-none",
-            "edge-numbering-free", "triangle", "quad", "big-face", "interior-edge"]
+            "edge-numbering-free", "triangle", "quad", "big-face", "interior-edge", "narrow-index-type"]
 RULE = ("one case = one valid lattice mesh (family of quads / triangle pairs / absent squares / hexagons with collinear "
         "vertices, plus seeded random meshes to ~60 faces with concave faces) with supplied tables in a non-canonical edge "
         "numbering; one event per encoding: base {0,1} x fill {int _FillValue, NaN, none} x {normal, transposed} x subset of "
@@ -64,6 +64,11 @@ def cases(tier: str, seed: int) -> list[dict]:
             chosen = encs
         else:
             chosen = rng.sample(encs, 24 if tier == "quick" else 60)
+        # the tables stored in the narrowest integer type that holds every index and the fill value (int8 from a dozen
+        # nodes on, int16 otherwise): products of two indexes do not fit that type
+        big = max(len(m["nodes"]), len(m["edges"]), len(m["faces"])) + 1
+        narrow = "i1" if big < 127 else "i2"
+        chosen = list(chosen) + [dict(e, index_dtype=narrow) for e in rng.sample([x for x in encs if x["fill"] != "nan"], 6)]
         w = W.counts_world("ugrid", nface=len(m["faces"]), nnode=len(m["nodes"]), nedge=len(m["edges"]))
         w["mesh"] = m
         out.append({"src": "gen", "world": w, "events": [{"a": "Topology", "enc": e} for e in chosen]})
